@@ -2,6 +2,7 @@ import MdsVerif.Proofs.Stack
 import MdsVerif.Proofs.Mlink
 import MdsVerif.Proofs.MlinkRefine
 import MdsVerif.Proofs.Ring
+import MdsVerif.Proofs.RingCycle
 import MdsVerif.Gen.MlinkCursor
 /-!
 # C10 — stack, mlink.List/Queue and ring.Ring preserve their abstract sequence
@@ -524,6 +525,200 @@ theorem C10_ring_observations (h : Heap) (hi : Inv h) (r : Nat) (l : List Nat) (
 example : Cyc (of {} [1, 2, 3]).1 [0, 2, 1] ∧ [0, 2, 1].map (of {} [1, 2, 3]).1.val = [1, 2, 3] ∧
     Inv (of {} [1, 2, 3]).1 :=
   ⟨⟨by simp, ⟨rfl, rfl, rfl, trivial⟩, by decide, by decide⟩, by decide, (of_inv {} inv_empty _).1⟩
+
+/-!
+### Every cell of a reachable heap lies on a cycle (audit item 7)
+
+The per-operation theorems above assume `Cyc h (r :: l)`.  `C10_ring_cycle_exists` discharges that
+assumption from the history invariant alone: with `next`/`prev` mutually inverse inside a finite
+heap, the orbit of `r` under `next` returns to `r` within `size` steps (pigeonhole on the first
+`size + 1` iterates, injectivity of `next` pulls the coincidence back to `r`), and the iterates up
+to the first return are the duplicate-free list of the cycle.  The list is unique
+(`cyc_unique`), so "the ring of `r`" is well defined.  `C10_ring_history_cycles` restates the
+history theorem: after every history every allocated cell — in particular every non-nil register —
+lies on such a cycle, `Len`/`Each`/`At` read it, and `C10_ring_never_hangs`: no operation of any
+history exhausts the fuel of `scan`.  `C10_ring_pop_any` / `C10_ring_join_any` are the `Pop` and
+`Join` pictures without any hypothesis on cycles.
+-/
+
+/-- **cycle existence and uniqueness**: in a heap whose `next`/`prev` are mutually inverse and in
+range, every cell `r` starts exactly one list `r :: l` that is a cycle of `next`; it has at most
+`size` cells -/
+theorem C10_ring_cycle_exists (h : Heap) (hi : Inv h) (r : Nat) (hr : r < h.size) :
+    ∃ l, Cyc h (r :: l) ∧ (∀ l', Cyc h (r :: l') → l' = l) ∧ l.length + 1 ≤ h.size := by
+  obtain ⟨l, c⟩ := cyc_exists h hi r hr
+  exact ⟨l, c, fun l' c' => cyc_unique h r l' l c' c, by simpa using cyc_length_le h _ c⟩
+
+/-- two cells are on the same cycle or on disjoint cycles: a cycle is closed under `next`, and the
+cycles through `r` and `s` share an element only if `s` is on the cycle of `r` -/
+theorem C10_ring_cycles_partition (h : Heap) (r s : Nat) (l l' : List Nat)
+    (c1 : Cyc h (r :: l)) (c2 : Cyc h (s :: l')) :
+    (∀ x ∈ r :: l, h.nx x ∈ r :: l) ∧
+    (s ∈ r :: l → ∀ y, y ∈ s :: l' ↔ y ∈ r :: l) ∧
+    (s ∉ r :: l → ∀ x ∈ r :: l, x ∉ s :: l') := by
+  refine ⟨fun x hx => cyc_nx_mem h _ c1 x hx, fun hs y => ⟨?_, ?_⟩, fun hs => ?_⟩
+  · exact cyc_mem_of_common h _ _ c1 c2 s hs (by simp) y
+  · exact cyc_mem_of_common h _ _ c2 c1 s (by simp) hs y
+  · exact cyc_disjoint_of_not_mem h _ _ c1 c2 s (by simp) hs
+
+/-- the invariant of `C10_ring_invariant` as the predicate `Inv`/`RInv` of the per-operation theorems -/
+theorem ring_history_rinv (ops : List Op) : RInv (ops.foldl (fun s op => (step s op).1) ({} : St)) := by
+  suffices h : ∀ s : St, RInv s → RInv (ops.foldl (fun s op => (step s op).1) s) from h {} rinv_init
+  induction ops with
+  | nil => intro s hs; exact hs
+  | cons op ops ih => intro s hs; exact ih _ (step_rinv s op hs)
+
+/-- **after every history every cell lies on a cycle**: for every allocated cell `q` of the state
+reached by any history — in particular for every register that is not nil — there is exactly one
+duplicate-free list `q :: l` of cells that is a cycle of `next` (and, read backwards, of `prev`);
+`Len` is its length, `Each` visits its values in order (neither runs out of fuel), `At`/`Peek` index
+it in both directions.  All per-operation theorems (`C10_ring_join_*`, `C10_ring_pop`,
+`C10_ring_observations`) therefore apply to every ring reached by a history. -/
+theorem C10_ring_history_cycles (ops : List Op) :
+    let s := ops.foldl (fun s op => (step s op).1) ({} : St)
+    Inv s.h ∧
+    (∀ q, q < s.h.size → ∃ l, Cyc s.h (q :: l) ∧ ∀ l', Cyc s.h (q :: l') → l' = l) ∧
+    (∀ i q, s.reg i = some q → ∃ l, Cyc s.h (q :: l) ∧ (∀ l', Cyc s.h (q :: l') → l' = l) ∧
+      len s.h (s.reg i) = .ok (l.length + 1) ∧
+      each s.h (s.reg i) none = .ok ((q :: l).map s.h.val) ∧
+      (∀ k, each s.h (s.reg i) (some k) = .ok (((q :: l).take (k + 1)).map s.h.val)) ∧
+      (∀ n : Nat, at_ s.h (s.reg i) n = (if n ≤ l.length then (q :: l)[n]? else none) ∧
+        at_ s.h (s.reg i) (-(n : Int)) = (if n ≤ l.length then (q :: l.reverse)[n]? else none))) := by
+  intro s
+  have hs : RInv s := ring_history_rinv ops
+  refine ⟨hs.inv, fun q hq => ?_, fun i q hq => ?_⟩
+  · obtain ⟨l, c, u, _⟩ := C10_ring_cycle_exists s.h hs.inv q hq
+    exact ⟨l, c, u⟩
+  · obtain ⟨l, c, u, _⟩ := C10_ring_cycle_exists s.h hs.inv q (hs.regs i q hq)
+    obtain ⟨o1, o2, o3, o4, _, _⟩ := C10_ring_observations s.h hs.inv q l c
+    rw [hq]
+    exact ⟨l, c, u, o3, o1, o2, o4⟩
+
+/-- on a well-formed state no operation hangs (`scan` never runs out of fuel) -/
+theorem step_no_hang (s : St) (hs : RInv s) (op : Op) : (step s op).2 ≠ .hang := by
+  have hscan : ∀ r stop, scan s.h (s.reg r) stop ≠ .hang := by
+    intro r stop
+    cases hr : s.reg r with
+    | none => simp [scan]
+    | some q =>
+      obtain ⟨l, c⟩ := cyc_exists s.h hs.inv q (hs.regs r q hr)
+      rw [scan_cyc s.h q l c stop]; simp
+  cases op with
+  | of d vs => simp [step]
+  | new d n => simp [step]
+  | join d r t =>
+    simp only [step]
+    cases hr : s.reg r with
+    | none => cases ht : s.reg t <;> simp [join]
+    | some a => cases ht : s.reg t with
+      | none => simp [join]
+      | some b =>
+        obtain ⟨h', p, e, _⟩ := join_inv s.h hs.inv a b (hs.regs r a hr) (hs.regs t b ht)
+        rw [e]; simp
+  | pop d r => simp [step]
+  | next d r => simp only [step]; split <;> simp
+  | prev d r => simp only [step]; split <;> simp
+  | at_ d r n => simp [step]
+  | peek r n => simp [step]
+  | len r =>
+    simp only [step, len]
+    have := hscan r none
+    cases hsc : scan s.h (s.reg r) none with
+    | ok l => simp
+    | panicNil => simp
+    | hang => exact absurd hsc this
+  | each r k =>
+    simp only [step, each]
+    have := hscan r (some k)
+    cases hsc : scan s.h (s.reg r) (some k) with
+    | ok l => simp
+    | panicNil => simp
+    | hang => exact absurd hsc this
+  | isEmpty r => simp [step]
+
+/-- **scan terminates on every ring reached by a history**: no operation of any history returns
+`hang` (the model's "fuel of `scan` exhausted"; `size + 1` iterations always suffice) -/
+theorem C10_ring_never_hangs (ops : List Op) : Out.hang ∉ run {} ops := by
+  suffices h : ∀ s : St, RInv s → Out.hang ∉ run s ops from h {} rinv_init
+  induction ops with
+  | nil => intro s _; simp [run]
+  | cons op ops ih =>
+    intro s hs
+    simp only [run, List.mem_cons, not_or]
+    exact ⟨fun e => step_no_hang s hs op e.symm, ih _ (step_rinv s op hs)⟩
+
+/-- **`Pop` without a hypothesis on cycles**: for every cell `r` of a well-formed heap, with
+`r :: l` its cycle: a singleton is left alone; otherwise `r` becomes a ring of its own and the rest
+`l` (read from the old `r.Next()`) is a cycle -/
+theorem C10_ring_pop_any (h : Heap) (hi : Inv h) (r : Nat) (hr : r < h.size) :
+    ∃ l, Cyc h (r :: l) ∧ (l = [] → pop h (some r) = h) ∧
+      (l ≠ [] → Cyc (pop h (some r)) [r] ∧ Cyc (pop h (some r)) l) ∧
+      Inv (pop h (some r)) ∧ (pop h (some r)).size = h.size ∧ (pop h (some r)).vals = h.vals := by
+  obtain ⟨l, c⟩ := cyc_exists h hi r hr
+  obtain ⟨i', sz, v, _, _⟩ := pop_inv h hi r hr
+  refine ⟨l, c, fun e => C10_ring_pop_singleton h hi r (e ▸ c), fun hne => ?_, i', sz, v⟩
+  obtain ⟨m, a, e⟩ := exists_snoc l hne
+  subst e
+  -- read the cycle from `a = r.prev`: `a :: r :: m`
+  have c' : Cyc h (a :: r :: m) := by
+    have := cyc_rotate h (r :: m) [a] (by simp) (by simp) (by simpa using c)
+    simpa using this
+  obtain ⟨p1, p2, _⟩ := C10_ring_pop h hi a r m c'
+  refine ⟨p1, ?_⟩
+  by_cases hm : m = []
+  · subst hm; simpa using p2
+  · have := cyc_rotate (pop h (some r)) [a] m (by simp) hm (by simpa using p2)
+    exact this
+
+/-- **`Join` without a hypothesis on cycles**: for any two cells `r`, `s` of a well-formed heap, with
+`r :: l` the cycle of `r`: (1) `s = r` or `s = r.Next()`: nothing happens, nil is returned;
+(2) `s` farther along the same ring, `l = m ++ s :: rest` with `m ≠ []`: the ring becomes
+`r :: s :: rest`, `m` is a ring of its own and its first element is returned; (3) `s` on another
+ring `s :: l'`: the rings are merged into `r :: s :: l' ++ l` and `r`'s old successor is returned.
+Exactly one of the three cases applies. -/
+theorem C10_ring_join_any (h : Heap) (hi : Inv h) (r s : Nat) (hr : r < h.size) (hs : s < h.size) :
+    ∃ l, Cyc h (r :: l) ∧
+      ((s = r ∨ l.head? = some s) → join h (some r) (some s) = .ok (h, none)) ∧
+      (∀ m rest, l = m ++ s :: rest → m ≠ [] →
+        ∃ h', join h (some r) (some s) = .ok (h', m.head?) ∧ Cyc h' (r :: s :: rest) ∧ Cyc h' m ∧
+          Inv h' ∧ h'.size = h.size ∧ h'.vals = h.vals) ∧
+      (s ∉ r :: l → ∃ l' h', Cyc h (s :: l') ∧ join h (some r) (some s) = .ok (h', some (l.headD r)) ∧
+          Cyc h' (r :: ((s :: l') ++ l)) ∧ Inv h' ∧ h'.size = h.size ∧ h'.vals = h.vals) ∧
+      (s = r ∨ s ∈ l ∨ s ∉ r :: l) := by
+  obtain ⟨l, c⟩ := cyc_exists h hi r hr
+  have hnr : h.nx r = l.headD r := by have := c.lk; simp only [Lk, List.headD_cons] at this; exact this.1
+  refine ⟨l, c, ?_, ?_, ?_, ?_⟩
+  · intro hc
+    have : (r = s || h.nx r = s) = true := by
+      rcases hc with e | e
+      · simp [e]
+      · cases l with
+        | nil => simp at e
+        | cons q l => simp at e; simp [hnr, e]
+    simp [join, this]
+  · intro m rest e hm
+    obtain ⟨m', cc, e'⟩ := exists_snoc m hm
+    subst e' e
+    obtain ⟨h', j, c1, c2, i', sz, v⟩ := C10_ring_join_same h hi r cc s m' rest (by simpa using c)
+    refine ⟨h', ?_, c1, c2, i', sz, v⟩
+    rw [j]; cases m' <;> simp
+  · intro hns
+    obtain ⟨l', c2⟩ := cyc_exists h hi s hs
+    have hd := cyc_disjoint_of_not_mem h _ _ c c2 s (by simp) hns
+    obtain ⟨h', j, c3, i', sz, v⟩ := C10_ring_join_different h hi r s l l' c c2 hd
+    exact ⟨l', h', c2, j, c3, i', sz, v⟩
+  · by_cases e : s = r
+    · exact Or.inl e
+    · by_cases hm : s ∈ l
+      · exact Or.inr (Or.inl hm)
+      · exact Or.inr (Or.inr (by simp [e, hm]))
+
+/-- non-vacuity of cycle existence on a reached heap: after `Of 1 2 3 4 5`, `Join` (splice out `[2 3]`)
+and `Pop`, every cell is on a cycle and `Len` reads it (register 2 holds the spliced-out ring) -/
+example :
+    let s := [Op.of 0 [1, 2, 3, 4, 5], .at_ 1 0 3, .join 2 0 1, .pop 4 1].foldl (fun s op => (step s op).1) ({} : St)
+    s.h.size = 5 ∧ len s.h (s.reg 2) = .ok 2 ∧ len s.h (s.reg 0) = .ok 2 ∧ len s.h (s.reg 4) = .ok 1 := by
+  decide
 
 end ring
 
